@@ -2852,7 +2852,16 @@ XPath::locationPathPattern(
 {
     eMatchScore score = eMatchScoreNone;
 
-    stepPattern(executionContext, &context, opPos + 2, score);
+    XalanNode*  theAncestor = 0;
+
+    // A step that is followed by '//' matches any ancestor.  If the steps to
+    // its left do not accept the ancestor it found, try again with the next
+    // one, until there is a match, or there are no more ancestors...
+    do
+    {
+        stepPattern(executionContext, &context, opPos + 2, score, theAncestor);
+    }
+    while(score == eMatchScoreNone && theAncestor != 0);
 
     return score;
 }
@@ -3106,23 +3115,70 @@ XPath::stepPattern(
             XPathExecutionContext&  executionContext,
             XalanNode*              context, 
             OpCodeMapPositionType   opPos,
-            eMatchScore&            scoreHolder) const
+            eMatchScore&            scoreHolder,
+            XalanNode*&             theAncestor) const
 {
     const XPathExpression&  currentExpression = getExpression();
 
     const OpCodeMapPositionType     endStep = currentExpression.getNextOpCodePosition(opPos);
     OpCodeMapValueType              nextStepType = currentExpression.getOpCodeMapValue(endStep);
 
+    const OpCodeMapPositionType     startOpPos = opPos;
+    const OpCodeMapValueType        stepType =
+        currentExpression.getOpCodeMapValue(opPos);
+
+    // A step that is followed by '//' matches any ancestor.  It reports the
+    // one it found through theAncestor, and, when called again with that node,
+    // continues with the next one.  A step that does not match leaves
+    // theAncestor alone, so the caller that started the search knows there
+    // is another ancestor to try.
+    const bool  fAnyAncestor =
+        stepType == XPathExpression::eMATCH_ANY_ANCESTOR ||
+        stepType == XPathExpression::eMATCH_ANY_ANCESTOR_WITH_PREDICATE;
+
     bool    fDoPredicates = true;
 
     if(XPathExpression::eENDOP != nextStepType)
     {
-        // Continue step via recursion...
-        context = stepPattern(
+        if (fAnyAncestor == false)
+        {
+            // Continue step via recursion...
+            context = stepPattern(
                         executionContext,
                         context,
                         endStep,
-                        scoreHolder);
+                        scoreHolder,
+                        theAncestor);
+        }
+        else if (theAncestor != 0)
+        {
+            // The steps to the right have already matched, so
+            // continue above the ancestor that was found last...
+            context = theAncestor;
+
+            theAncestor = 0;
+
+            scoreHolder = eMatchScoreOther;
+        }
+        else
+        {
+            // Continue step via recursion, trying every ancestor
+            // the next step to the right that matches any ancestor
+            // can find, until the steps in between accept one...
+            XalanNode* const    theStartNode = context;
+            XalanNode*          theNextAncestor = 0;
+
+            do
+            {
+                context = stepPattern(
+                            executionContext,
+                            theStartNode,
+                            endStep,
+                            scoreHolder,
+                            theNextAncestor);
+            }
+            while(0 == context && theNextAncestor != 0);
+        }
 
         if(0 == context)
         {
@@ -3158,10 +3214,6 @@ XPath::stepPattern(
     OpCodeMapValueType  argLen = 0;
 
     eMatchScore         score = eMatchScoreNone;
-
-    const OpCodeMapPositionType     startOpPos = opPos;
-    const OpCodeMapValueType        stepType =
-        currentExpression.getOpCodeMapValue(opPos);
 
     switch(stepType)
     {
@@ -3332,6 +3384,10 @@ XPath::stepPattern(
                     nodeType = context->getNodeType();
                 }
             }
+
+            // This is where to continue, if the steps
+            // to the left do not match from here...
+            theAncestor = score == eMatchScoreNone ? 0 : context;
         }
         break;
 
